@@ -155,6 +155,12 @@ fn parse(text: &str) -> Parse {
                 }
             }
 
+            // Comments at the end of a paragraph (followed by a blank line or
+            // the end of the input) do not introduce another entry.
+            if self.current().is_none() || self.current() == Some(NEWLINE) {
+                return;
+            }
+
             self.builder.start_node(ENTRY.into());
 
             // First, parse the key and colon
